@@ -145,6 +145,9 @@ def run_err_family(fam, st):
     elif fam["kind"] == "embedded":
         frame = embedded_frame(fam["which"], fam["lead"])
         fam = {**fam, "len": len(frame)}
+    elif fam["kind"] == "special":
+        frame = items.frames()[fam["item"]]["data"]
+        fam = {**fam, "len": len(frame)}
     else:
         frame = pinned.frame(items.unknown_payload(fam["len"] - 6, 4020, fam["len"])
                              if fam["len"] - 6 >= 2 else bytes([0x3E] * (fam["len"] - 6)))
@@ -186,12 +189,28 @@ def run_err_family(fam, st):
                 f"{e.bit_length() - (e & -e).bit_length() + 1}) -> {res}")
         st.add({"kind": "err", "len": fam["len"], "e": hex(e), "pre": pre,
                 "nested": [fam["inner"], fam["bit"]] if fam["kind"] == "nested" else None,
-                "embedded": [fam["which"], fam["lead"]] if fam["kind"] == "embedded" else None}, out)
+                "embedded": [fam["which"], fam["lead"]] if fam["kind"] == "embedded" else None,
+                "special": fam.get("item")}, out)
         st.evaluations -= 1
         st.nontrivial -= 1
 
     kind = fam["kind"]
-    if kind == "embedded":
+    if kind == "special":
+        # frames with text-like / sync-like trailers and contents: every single bit, every adjacent
+        # pair, every single-octet pattern in the last six octets, bursts up to 24 ending at the end
+        for b in range(nbits):
+            one(1 << b)
+        for b in range(nbits - 1):
+            one(3 << b)
+        for pos in range(6):
+            for v in range(1, 256):
+                one(v << (8 * pos))
+        for ln in range(2, 25):
+            for mid in (0, (1 << (ln - 2)) - 1 if ln > 2 else 0):
+                for start in (0, 8, 16, 24):
+                    if start + ln <= nbits:
+                        one(((1 << (ln - 1)) | (mid << 1) | 1) << start)
+    elif kind == "embedded":
         # every pattern confined to the first three octets that touches the first one (a burst of
         # span <= 24), and every single-octet pattern anywhere (a burst of span <= 8)
         for b0 in range(1, 256):
@@ -296,7 +315,9 @@ def nested_frame(inner, bit):
 def run_v0(st, tier):
     from pyrtcm import RTCMReader  # pylint: disable=import-outside-toplevel
 
-    for it in corpus.build(tier):
+    special = [{"name": "item:" + n, "payload": f["payload"], "kind": "ok"}
+               for n, f in items.frames().items() if len(f["payload"]) >= 2]
+    for it in corpus.build(tier) + special:
         if it["kind"] == "fail":
             continue
         frame = pinned.frame(it["payload"])
@@ -360,6 +381,7 @@ def judge(case):
         ln = case["len"]
         frame = nested_frame(*case["nested"]) if case.get("nested") else \
             embedded_frame(*case["embedded"]) if case.get("embedded") else \
+            items.frames()[case["special"]]["data"] if case.get("special") else \
             pinned.frame(items.unknown_payload(ln - 6, 4020, ln) if ln - 6 >= 2
                          else bytes([0x3E] * (ln - 6)))
         ln = len(frame)
@@ -441,6 +463,9 @@ def plan(tier):
             if outer != inner and inner + 3 <= outer <= 1023 and (tier == "thorough" or outer <= 300
                                                                   or bit == 9):
                 fams.append({"kind": "nested", "inner": inner, "bit": bit, "len": outer + 6})
+    for nm in ("Fcrc0d0a", "Fcrc0a", "Fcrc24", "FcrcB5", "FcrcD3", "Fcrc000", "FcrcFFF", "FcrcD300",
+               "Fnested", "Fsync", "Fcol1", "F4076unk"):
+        fams.append({"kind": "special", "item": nm, "len": 0})
     for which in ("1005", "unk"):
         for lead in ((0, 1, 4) if tier == "quick" else (0, 1, 2, 3, 4, 9, 30)):
             fams.append({"kind": "embedded", "which": which, "lead": lead, "len": 0})
